@@ -1,5 +1,7 @@
 import CnlDriver.CS
 import CnlModel.Layered
+import CnlModel.ScaledFloat
+import CnlDriver.FloatIO
 /-! `C01`–`C04` tables: scaled_integer over built-in representations (operators, division,
 comparison, conversion). -/
 namespace Cnl.Drv
@@ -147,6 +149,29 @@ def checkC04 (toks : List String) (res : String) : Option Verdict :=
       | none => some false
     some { model := showRes showNum m, spec := spec, branch := "cvt" ++ (if es < ed then "/narrow" else if es > ed then "/widen" else "/same"),
            nontrivial := constrained }
+  | ["tof", rx, st, es, fm, v] => do
+    -- scaled integer -> floating point: must be the correctly rounded value of rep * radix^exp
+    let rx ← rx.toNat?; let _S ← parseIntTy st; let es ← es.toInt?; let f ← FloatIO.parseFmt fm; let v ← v.toInt?
+    let m := ScaledFloat.toFloat f rx v es
+    let exact : Rat := (v : Rat) * (if es ≥ 0 then ((rx : Rat) ^ es.toNat) else 1 / ((rx : Rat) ^ (-es).toNat))
+    let want := f.round exact
+    let cls := if rx != 2 then "C04.non_binary_radix_float_not_correctly_rounded" else ""
+    some { model := FloatIO.showF f m, spec := some (FloatIO.showF f want == res), cls := cls,
+           branch := s!"tof/{fm}/r{rx}" }
+  | ["fromf", rx, dt, ed, fm, x] => do
+    -- floating point -> scaled integer: exact when representable, else truncated toward zero
+    let rx ← rx.toNat?; let D ← parseIntTy dt; let ed ← ed.toInt?; let f ← FloatIO.parseFmt fm; let x ← Fmt.ofHex? f x
+    let m := ScaledFloat.fromFloat f rx D ed x
+    let spec : Option Bool :=
+      match x.toRat? with
+      | none => none
+      | some q =>
+        let scaled : Rat := q * (if ed ≤ 0 then ((rx : Rat) ^ (-ed).toNat) else 1 / ((rx : Rat) ^ ed.toNat))
+        let t : Int := if scaled < 0 then -((-scaled).floor) else scaled.floor
+        if D.inRange t then some (res == s!"sc({D.toString},{ed},{rx}):{t}") else none
+    let cls := if rx != 2 then "C04.non_binary_radix_float_not_correctly_rounded" else ""
+    some { model := showRes (fun v => s!"sc({D.toString},{ed},{rx}):{v}") m, spec := spec, cls := cls,
+           branch := s!"fromf/{fm}/r{rx}", nontrivial := spec.isSome }
   | _ => none
 
 end Cnl.Drv
